@@ -59,6 +59,10 @@ def queries(draw, mode, data_pts, max_n=20):
 def proj_from(desc):
     if desc is None:
         return None
+    if len(desc) == 4:
+        # non-separable linear map (rotation + shear): projected easting depends on northing and vice versa
+        a, b, c, d = desc
+        return lambda e, n: (a * np.asarray(e) + b * np.asarray(n), c * np.asarray(e) + d * np.asarray(n))
     ax, ay = desc
     return lambda e, n: (ax * np.asarray(e), ay * np.asarray(n))
 
@@ -122,7 +126,8 @@ def median_cases(draw):
     mode, pts = draw(clouds(min_n=2))
     n = len(pts)
     return dict(mode=mode, data=pts, k=draw(st.integers(1, n - 1)), shape=draw(st.sampled_from(blocks.shape_options(n))),
-                proj=draw(st.one_of(st.none(), st.tuples(st.sampled_from([1.0, 2.0, 0.5, 10.0, -1.0]), st.sampled_from([1.0, 3.0, 0.25, -2.0])))),
+                proj=draw(st.one_of(st.none(), st.tuples(st.sampled_from([1.0, 2.0, 0.5, 10.0, -1.0]), st.sampled_from([1.0, 3.0, 0.25, -2.0])),
+                                    st.sampled_from([(0.8, -0.6, 0.6, 0.8), (1.0, 0.7, 0.0, 1.0)]))),
                 extra=draw(st.booleans()), orders=draw(build.orders_strategy()), container=draw(st.sampled_from(build.CONTAINERS)))
 
 
@@ -151,7 +156,9 @@ def check_median(case, ctx):
 def mask_cases(draw):
     mode, pts = draw(clouds(min_n=1))
     form = draw(st.sampled_from(["array", "grid"]))
-    proj = draw(st.one_of(st.none(), st.tuples(st.sampled_from([1.0, 2.0, 0.5, 10.0]), st.sampled_from([1.0, 3.0, 0.25]))))
+    proj = draw(st.one_of(st.none(), st.tuples(st.sampled_from([1.0, 2.0, 0.5, 10.0]), st.sampled_from([1.0, 3.0, 0.25])),
+                          st.sampled_from([(0.8, -0.6, 0.6, 0.8), (1.0, 0.7, 0.0, 1.0), (0.5, 2.0, -1.5, 0.25)])))
+    proj = None if proj is None else list(proj)
     case = dict(mode=mode, data=pts, form=form, proj=proj, dshape=draw(st.sampled_from(blocks.shape_options(len(pts)))), orders=draw(build.orders_strategy()))
     if form == "array":
         qs = draw(queries(mode, pts))
@@ -216,7 +223,8 @@ def check_mask(case, ctx):
     else:
         dmin = dist_matrix(pq, pd_).min(axis=1)
         for i in range(q.shape[0]):
-            if abs(dmin[i] - maxdist) <= 1e-9 * max(maxdist, dmin[i]):
+            # ties, including distances so small that their squares underflow (absolute slack relative to the coordinate magnitudes)
+            if abs(dmin[i] - maxdist) <= 1e-9 * max(maxdist, dmin[i]) + 1e-100 * (1.0 + float(np.max(np.abs(pd_)))):
                 continue
             compared += 1
             if bool(flat[i]) != bool(dmin[i] <= maxdist):
